@@ -182,6 +182,21 @@ Section Exec.
     destruct (is_obj h (env_get e a)); inversion H; apply kept_refl.
   Qed.
 
+  Lemma ex_gremove : forall a m s e h h' r, exec vt W (OGranularRemove a m s) e h = (h', r) -> kept h h'.
+  Proof. intros a m s e h h' r H. unfold exec in H. apply grows_kept. eapply granular_remove_grows; eauto. Qed.
+
+  Lemma ex_gset : forall a m s e h h' r, exec vt W (OGranularSet a m s) e h = (h', r) -> kept h h'.
+  Proof. intros a m s e h h' r H. unfold exec in H. apply grows_kept. eapply granular_set_grows; eauto. Qed.
+
+  Lemma ex_oset : forall a m e h h' r, exec vt W (OObjectSet a m) e h = (h', r) -> kept h h'.
+  Proof. intros a m e h h' r H. unfold exec in H. apply grows_kept. eapply object_set_grows; eauto. Qed.
+
+  Lemma ex_api : forall fn a m s e h h' r, exec vt W (OApi fn a m s) e h = (h', r) -> kept h h'.
+  Proof. intros fn a m s e h h' r H. unfold exec in H. apply grows_kept. eapply api_markings_grows; eauto. Qed.
+
+  Lemma ex_remove_custom : forall a e h h' r, exec vt W (ORemoveCustom a) e h = (h', r) -> kept h h'.
+  Proof. intros a e h h' r H. unfold exec in H. apply grows_kept. eapply remove_custom_stix_grows; eauto. Qed.
+
   Lemma exec_kept : forall o e h h' r, public_op o = true -> exec vt W o e h = (h', r) -> kept h h'.
   Proof.
     intros o e h h' r Hp. destruct o.
@@ -192,6 +207,7 @@ Section Exec.
     - apply ex_setattr. simpl in Hp. now apply negb_true_iff in Hp.
     - discriminate.
     - apply ex_setitem.
+    - apply ex_gremove. - apply ex_gset. - apply ex_oset. - apply ex_api. - apply ex_remove_custom.
   Qed.
 
   (* histories: any sequence of public operations *)
